@@ -40,6 +40,10 @@ func c14Chunk(rng *RNG, i int) *rag.Chunk {
 	m.PageStart = rng.Intn(6)
 	m.PageEnd = m.PageStart + rng.Intn(3)
 	m.ChunkIndex = i
+	if rng.Chance(1, 2) {
+		// chunks of several documents in one collection: the index is the chunk's own, not its position here
+		m.ChunkIndex = rng.Intn(6)
+	}
 	m.TotalChunks = rng.Intn(10)
 	m.Level = levels[rng.Intn(4)]
 	if rng.Chance(1, 3) {
@@ -49,7 +53,10 @@ func c14Chunk(rng *RNG, i int) *rag.Chunk {
 		m.ChildIDs = []string{c14Str(rng), "c2"}
 	}
 	if rng.Chance(1, 2) {
-		m.ElementTypes = []string{[]string{"paragraph", "Table", "list", "heading"}[rng.Intn(4)]}
+		m.ElementTypes = []string{[]string{"paragraph", "Table", "list", "heading", "LIST", "table", "Paragraph"}[rng.Intn(7)]}
+		if rng.Chance(1, 3) {
+			m.ElementTypes = append(m.ElementTypes, []string{"table", "List", "image"}[rng.Intn(3)])
+		}
 	}
 	m.HasTable, m.HasList, m.HasImage = rng.Bool(), rng.Bool(), rng.Chance(1, 4)
 	m.CharCount = len(c.Text)
@@ -332,8 +339,16 @@ func init() {
 						if id != c.ID || (cfg.IncludeText && tx != c.Text) {
 							good = false
 						}
+						// the record's chunk index is the chunk's own (an absent field reads as 0)
+						ci := int64(0)
+						if n, ok := m["chunk_index"].(json.Number); ok {
+							ci, _ = n.Int64()
+						}
+						if ci != int64(c.Metadata.ChunkIndex) {
+							good = false
+						}
 					}
-					r.Check(good, name+"-parse-back", name+" records do not carry the same id/text in order", caseV)
+					r.Check(good, name+"-parse-back", name+" records do not carry the same id / text / chunk index in order", caseV)
 				}
 			}
 			// ---- batches
@@ -556,6 +571,16 @@ func init() {
 			r.Check(same(cc.FilterByMinTokens(a*40), func(c *rag.Chunk) bool { return c.Metadata.EstimatedTokens >= a*40 }), "filter-tokens", "FilterByMinTokens is wrong", fcv)
 			r.Check(same(cc.FilterByMaxTokens(a*40), func(c *rag.Chunk) bool { return c.Metadata.EstimatedTokens <= a*40 }), "filter-tokens", "FilterByMaxTokens is wrong", fcv)
 			r.Check(same(cc.FilterWithTables(), func(c *rag.Chunk) bool { return c.Metadata.HasTable }) && same(cc.FilterWithLists(), func(c *rag.Chunk) bool { return c.Metadata.HasList }) && same(cc.FilterWithImages(), func(c *rag.Chunk) bool { return c.Metadata.HasImage }), "filter-flags", "FilterWith* is wrong", fcv)
+			for _, et := range []string{"table", "TABLE", "List", "paragraph", "image", "nothing"} {
+				r.Check(same(cc.FilterByElementType(et), func(c *rag.Chunk) bool {
+					for _, x := range c.Metadata.ElementTypes {
+						if strings.EqualFold(x, et) {
+							return true
+						}
+					}
+					return false
+				}), "filter-element-type", "FilterByElementType("+et+") does not return exactly the chunks with an element of that type (letter case aside)", fcv)
+			}
 			kw := "LINE"
 			r.Check(same(cc.Search(kw), func(c *rag.Chunk) bool { return strings.Contains(strings.ToLower(c.Text), "line") }), "filter-search", "Search does not return exactly the chunks containing the keyword", fcv)
 			// chaining = conjunction, in order
